@@ -241,7 +241,9 @@ pub fn run(master: u64, runs: u64, long: u64, replay_dir: &str, tag: &str) -> Js
     // minimise and persist each violation class (at most 6)
     let mut vio_json = Vec::new();
     for (class, (idx, rec, v)) in m.violations.iter().take(12) {
-        let (mut min_rec, evals) = minimise(rec, class, 30_000);
+        // long inputs cost about a millisecond per evaluation: keep reporting prompt
+        let budget = if rec.input.len() > 8192 { 5_000 } else { 30_000 };
+        let (mut min_rec, evals) = minimise(rec, class, budget);
         let final_v = match check(&min_rec).violation {
             Some(fv) => fv,
             None => {
